@@ -93,6 +93,8 @@ var selfMutants = []selfMutant{
 	{Rule: "R-EOFKIND", File: "buffer/streamlexer.go", Old: "\tvar n int\n\tfor pos-z.start >= d && z.err == nil {\n\t\tn, z.err = z.r.Read(buf[d:cap(buf)])\n\t\td += n\n\t}\n", New: "\tvar n int\n\tif pos-z.start >= d {\n\t\tn, z.err = io.ReadAtLeast(z.r, buf[d:cap(buf)], pos-z.start-d+1)\n\t\tif z.err == io.ErrUnexpectedEOF {\n\t\t\tz.err = io.EOF\n\t\t}\n\t\td += n\n\t}\n", Props: []string{"C13"}, Silent: true, Why: "refill through io.ReadAtLeast with io.ErrUnexpectedEOF translated to io.EOF"},
 	{Rule: "R-EOFKIND", File: "binary.go", Old: "\tfor i := 0; i < int(n); {\n\t\tm, err := r.r.Read(b[i:])\n\t\tr.pos += int64(m)\n\t\ti += m\n\t\tif err != nil {\n\t\t\treturn b[:i], err\n\t\t} else if m == 0 {\n\t\t\treturn b[:i], errors.New(\"reader: could not read all bytes\")\n\t\t}\n\t}\n\treturn b, nil\n}", New: "\tm, err := io.ReadFull(r.r, b[:n])\n\tr.pos += int64(m)\n\treturn b[:m], err\n}", Props: []string{"C19"}, Why: "io.Reader back end filled with io.ReadFull: truncation inside a value reports io.ErrUnexpectedEOF instead of io.EOF"},
 	{Rule: "R-EOFKIND", File: "binary.go", Old: "\tfor i := 0; i < int(n); {\n\t\tm, err := r.r.Read(b[i:])\n\t\tr.pos += int64(m)\n\t\ti += m\n\t\tif err != nil {\n\t\t\treturn b[:i], err\n\t\t} else if m == 0 {\n\t\t\treturn b[:i], errors.New(\"reader: could not read all bytes\")\n\t\t}\n\t}\n\treturn b, nil\n}", New: "\tm, err := io.ReadFull(r.r, b[:n])\n\tr.pos += int64(m)\n\tif err == io.ErrUnexpectedEOF {\n\t\terr = io.EOF\n\t}\n\treturn b[:m], err\n}", Props: []string{"C19"}, Silent: true, Why: "io.ReadFull with io.ErrUnexpectedEOF translated to io.EOF"},
+	{Rule: "R-OVF", File: "strconv/int.go", Old: "// ParseInt parses a byte-slice and returns the integer it represents.\n// If an invalid character is encountered, it will stop there.\nfunc ParseInt(b []byte) (int64, int) {\n\ti := 0\n\tneg := false\n\tif len(b) > 0 && (b[0] == '+' || b[0] == '-') {\n\t\tneg = b[0] == '-'\n\t\ti++\n\t}\n\tstart := i\n\tn := uint64(0)\n\tfor i < len(b) {\n\t\tc := b[i]\n\t\tif '0' <= c && c <= '9' {\n\t\t\tif uint64(-math.MinInt64)/10 < n || uint64(-math.MinInt64)-uint64(c-'0') < n*10 {\n\t\t\t\treturn 0, 0\n\t\t\t}\n\t\t\tn *= 10\n\t\t\tn += uint64(c - '0')\n\t\t} else {\n\t\t\tbreak\n\t\t}\n\t\ti++\n\t}\n\tif i == start {\n\t\treturn 0, 0\n\t}\n\tif !neg && uint64(math.MaxInt64) < n {\n\t\treturn 0, 0\n\t} else if neg {\n\t\treturn -int64(n), i\n\t}\n\treturn int64(n), i\n}\n\n// ParseUint parses a byte-slice and returns the integer it represents.\n// If an invalid character is encountered, it will stop there.\nfunc ParseUint(b []byte) (uint64, int) {\n\ti := 0\n\tn := uint64(0)\n\tfor i < len(b) {\n\t\tc := b[i]\n\t\tif '0' <= c && c <= '9' {\n\t\t\tif math.MaxUint64/10 < n || math.MaxUint64-uint64(c-'0') < n*10 {\n\t\t\t\treturn 0, 0\n\t\t\t}\n\t\t\tn *= 10\n\t\t\tn += uint64(c - '0')\n\t\t} else {\n\t\t\tbreak\n\t\t}\n\t\ti++\n\t}\n\treturn n, i\n}\n\n", New: "// parseDigits parses the leading decimal digits of b into an unsigned integer\n// that may not exceed limit. It returns (0, 0) when there are no digits or when\n// the value would exceed limit.\nfunc parseDigits(b []byte, limit uint64) (uint64, int) {\n\ti := 0\n\tn := uint64(0)\n\tfor i < len(b) {\n\t\tc := b[i]\n\t\tif c < '0' || '9' < c {\n\t\t\tbreak\n\t\t}\n\t\td := uint64(c - '0')\n\t\tif limit/10 < n || limit-d < n*10 {\n\t\t\treturn 0, 0\n\t\t}\n\t\tn = n*10 + d\n\t\ti++\n\t}\n\treturn n, i\n}\n\n// ParseInt parses a byte-slice and returns the integer it represents.\n// If an invalid character is encountered, it will stop there.\nfunc ParseInt(b []byte) (int64, int) {\n\ti := 0\n\tneg := false\n\tlimit := uint64(math.MaxInt64)\n\tif len(b) > 0 && (b[0] == '+' || b[0] == '-') {\n\t\tneg = b[0] == '-'\n\t\tlimit++ // magnitude of math.MinInt64\n\t\ti++\n\t}\n\tn, k := parseDigits(b[i:], limit)\n\tif k == 0 {\n\t\treturn 0, 0\n\t}\n\tif neg {\n\t\treturn -int64(n), i + k\n\t}\n\treturn int64(n), i + k\n}\n\n// ParseUint parses a byte-slice and returns the integer it represents.\n// If an invalid character is encountered, it will stop there.\nfunc ParseUint(b []byte) (uint64, int) {\n\treturn parseDigits(b, math.MaxUint64)\n}\n\n", Props: []string{"C14"}, Why: "shared digit helper with a limit argument: ParseInt passes 2^63 for an explicit + as well, and converts the result without a range check"},
+	{Rule: "R-OVF", File: "strconv/int.go", Old: "// ParseInt parses a byte-slice and returns the integer it represents.\n// If an invalid character is encountered, it will stop there.\nfunc ParseInt(b []byte) (int64, int) {\n\ti := 0\n\tneg := false\n\tif len(b) > 0 && (b[0] == '+' || b[0] == '-') {\n\t\tneg = b[0] == '-'\n\t\ti++\n\t}\n\tstart := i\n\tn := uint64(0)\n\tfor i < len(b) {\n\t\tc := b[i]\n\t\tif '0' <= c && c <= '9' {\n\t\t\tif uint64(-math.MinInt64)/10 < n || uint64(-math.MinInt64)-uint64(c-'0') < n*10 {\n\t\t\t\treturn 0, 0\n\t\t\t}\n\t\t\tn *= 10\n\t\t\tn += uint64(c - '0')\n\t\t} else {\n\t\t\tbreak\n\t\t}\n\t\ti++\n\t}\n\tif i == start {\n\t\treturn 0, 0\n\t}\n\tif !neg && uint64(math.MaxInt64) < n {\n\t\treturn 0, 0\n\t} else if neg {\n\t\treturn -int64(n), i\n\t}\n\treturn int64(n), i\n}\n\n// ParseUint parses a byte-slice and returns the integer it represents.\n// If an invalid character is encountered, it will stop there.\nfunc ParseUint(b []byte) (uint64, int) {\n\ti := 0\n\tn := uint64(0)\n\tfor i < len(b) {\n\t\tc := b[i]\n\t\tif '0' <= c && c <= '9' {\n\t\t\tif math.MaxUint64/10 < n || math.MaxUint64-uint64(c-'0') < n*10 {\n\t\t\t\treturn 0, 0\n\t\t\t}\n\t\t\tn *= 10\n\t\t\tn += uint64(c - '0')\n\t\t} else {\n\t\t\tbreak\n\t\t}\n\t\ti++\n\t}\n\treturn n, i\n}\n\n", New: "// parseDigits parses the leading decimal digits of b into an unsigned integer\n// that may not exceed limit. It returns (0, 0) when there are no digits or when\n// the value would exceed limit.\nfunc parseDigits(b []byte, limit uint64) (uint64, int) {\n\ti := 0\n\tn := uint64(0)\n\tfor i < len(b) {\n\t\tc := b[i]\n\t\tif c < '0' || '9' < c {\n\t\t\tbreak\n\t\t}\n\t\td := uint64(c - '0')\n\t\tif limit/10 < n || limit-d < n*10 {\n\t\t\treturn 0, 0\n\t\t}\n\t\tn = n*10 + d\n\t\ti++\n\t}\n\treturn n, i\n}\n\n// ParseInt parses a byte-slice and returns the integer it represents.\n// If an invalid character is encountered, it will stop there.\nfunc ParseInt(b []byte) (int64, int) {\n\ti := 0\n\tneg := false\n\tlimit := uint64(math.MaxInt64)\n\tif len(b) > 0 && (b[0] == '+' || b[0] == '-') {\n\t\tneg = b[0] == '-'\n\t\tif neg {\n\t\t\tlimit++ // magnitude of math.MinInt64\n\t\t}\n\t\ti++\n\t}\n\tn, k := parseDigits(b[i:], limit)\n\tif k == 0 {\n\t\treturn 0, 0\n\t}\n\tif neg {\n\t\treturn -int64(n), i + k\n\t}\n\treturn int64(n), i + k\n}\n\n// ParseUint parses a byte-slice and returns the integer it represents.\n// If an invalid character is encountered, it will stop there.\nfunc ParseUint(b []byte) (uint64, int) {\n\treturn parseDigits(b, math.MaxUint64)\n}\n\n", Props: []string{"C14"}, Silent: true, Why: "shared digit helper with a per-sign limit chosen by neg (the limit argument is a phi correlated with the sign)"},
 	{Rule: "R-OVF", File: "strconv/int.go", Old: "func ParseUint(b []byte) (uint64, int) {\n\ti := 0\n\tn := uint64(0)\n\tfor i < len(b) {\n\t\tc := b[i]\n\t\tif '0' <= c && c <= '9' {\n\t\t\tif math.MaxUint64/10 < n || math.MaxUint64-uint64(c-'0') < n*10 {\n\t\t\t\treturn 0, 0\n\t\t\t}\n\t\t\tn *= 10\n\t\t\tn += uint64(c - '0')\n\t\t} else {\n\t\t\tbreak\n\t\t}\n\t\ti++\n\t}\n\treturn n, i\n}\n", New: "func ParseUint(b []byte) (uint64, int) {\n\tn, i, ok := scanU(b, math.MaxUint64)\n\tif !ok {\n\t\treturn 0, 0\n\t}\n\treturn n, i\n}\n\nfunc scanU(b []byte, max uint64) (uint64, int, bool) {\n\ti := 0\n\tn := uint64(0)\n\tfor ; i < len(b); i++ {\n\t\tc := b[i]\n\t\tif c < '0' || '9' < c {\n\t\t\tbreak\n\t\t}\n\t\td := uint64(c - '0')\n\t\tif max/10 < n || max-d < n*10 {\n\t\t\treturn 0, 0, false\n\t\t}\n\t\tn = n*10 + d\n\t}\n\treturn n, i, true\n}\n", Props: []string{"C14"}, Silent: true, Why: "ParseUint through a scan helper with a limit parameter (limit bounded from the call site)"},
 	{Rule: "R-OVF", File: "strconv/int.go", Old: "func ParseUint(b []byte) (uint64, int) {\n\ti := 0\n\tn := uint64(0)\n\tfor i < len(b) {\n\t\tc := b[i]\n\t\tif '0' <= c && c <= '9' {\n\t\t\tif math.MaxUint64/10 < n || math.MaxUint64-uint64(c-'0') < n*10 {\n\t\t\t\treturn 0, 0\n\t\t\t}\n\t\t\tn *= 10\n\t\t\tn += uint64(c - '0')\n\t\t} else {\n\t\t\tbreak\n\t\t}\n\t\ti++\n\t}\n\treturn n, i\n}\n", New: "func ParseUint(b []byte) (uint64, int) {\n\tn, i, ok := scanU(b, math.MaxUint64)\n\tif !ok {\n\t\treturn 0, 0\n\t}\n\treturn n, i\n}\n\nfunc scanU(b []byte, max uint64) (uint64, int, bool) {\n\ti := 0\n\tn := uint64(0)\n\tfor ; i < len(b); i++ {\n\t\tc := b[i]\n\t\tif c < '0' || '9' < c {\n\t\t\tbreak\n\t\t}\n\t\td := uint64(c - '0')\n\t\tif max/10 < n {\n\t\t\treturn 0, 0, false\n\t\t}\n\t\tn = n*10 + d\n\t}\n\treturn n, i, true\n}\n", Props: []string{"C14"}, Why: "scan helper with a limit parameter whose guard lost its second half: the sum wraps"},
 	{Rule: "R-OVF", File: "strconv/int.go", Old: "\t\t\tif math.MaxUint64/10 < n || math.MaxUint64-uint64(c-'0') < n*10 {\n\t\t\t\treturn 0, 0\n\t\t\t}\n\t\t\tn *= 10\n\t\t\tn += uint64(c - '0')", New: "\t\t\tif n > math.MaxUint64/10 {\n\t\t\t\treturn 0, 0\n\t\t\t}\n\t\t\tn10 := n * 10\n\t\t\tn1 := n10 + uint64(c-'0')\n\t\t\tif n1 < n10 {\n\t\t\t\treturn 0, 0\n\t\t\t}\n\t\t\tn = n1", Props: []string{"C14"}, Silent: true, Why: "ParseUint: the sum is computed first and discarded when it wrapped (n1 < n10)"},
